@@ -26,6 +26,9 @@ for d in sorted(glob.glob(os.path.join(VERIF, "seeded", "*"))):
         verdict = f"missed at first; **caught** after strengthening ({m['caught_after']})"
     elif m.get("caught"):
         verdict = "**caught**" + (" (input-level replay)" if m.get("input_level_replay") else " (`no-failing-input-found`)")
+    elif any(r.get("caught") for r in m.get("also", {}).values()):
+        who = ", ".join(k for k, r in m["also"].items() if r.get("caught"))
+        verdict = f"not by {m['property']}'s check (" + m.get("missed_note", "outside what it observes") + f"); **caught by {who}**"
     else:
         verdict = "**missed** — " + m.get("missed_note", "strengthening in progress")
     first = ""
